@@ -868,3 +868,63 @@ def degree_set(e: ast.AST, sym: str, defs: dict, depth: int = 0) -> Optional[set
         return None if l is None or r is None else {a + b for a in l for b in r}
     d = degree_in(e, sym, defs, depth)
     return None if d is None else {d}
+
+
+def power_degree(e: ast.AST, deg_of, defs: dict, depth: int = 0):
+    """Homogeneity degree (a Fraction) of e in the transmit POWER, given `deg_of(node)` for the leaves that carry one (attributes such
+    as the power itself: 1, a power-scaled precoder: 1/2, a unit-norm precoder: 0).  Products add, quotients subtract, sqrt halves,
+    norms / conjugates / transposes / slices / principal-component selection keep the degree, sums need equal degrees.  None = no verdict."""
+    from fractions import Fraction
+    if depth > 14:
+        return None
+    d0 = deg_of(e)
+    if d0 is not None:
+        return Fraction(d0)
+    if isinstance(e, ast.Constant):
+        return Fraction(0)
+    if isinstance(e, ast.Name):
+        if e.id in defs:
+            return power_degree(defs[e.id], deg_of, defs, depth + 1)
+        return None
+    if isinstance(e, ast.Attribute) and e.attr in ('T', 'real', 'imag', 'H'):
+        return power_degree(e.value, deg_of, defs, depth + 1)
+    if isinstance(e, ast.Subscript):
+        return power_degree(e.value, deg_of, defs, depth + 1)
+    if isinstance(e, ast.UnaryOp):
+        return power_degree(e.operand, deg_of, defs, depth + 1)
+    if isinstance(e, ast.BinOp):
+        l, r = power_degree(e.left, deg_of, defs, depth + 1), power_degree(e.right, deg_of, defs, depth + 1)
+        if isinstance(e.op, ast.Pow):
+            k = const_value(e.right)
+            if l is not None and isinstance(k, (int, float)):
+                return l * Fraction(k).limit_denominator(16)
+            return None
+        if l is None or r is None:
+            return None
+        if isinstance(e.op, (ast.Mult, ast.MatMult)):
+            return l + r
+        if isinstance(e.op, ast.Div):
+            return l - r
+        if isinstance(e.op, (ast.Add, ast.Sub)):
+            return l if l == r else None
+        return None
+    if isinstance(e, ast.Call):
+        mm = matmul_operands(e)
+        if mm is not None:
+            l, r = power_degree(mm[0], deg_of, defs, depth + 1), power_degree(mm[1], deg_of, defs, depth + 1)
+            return None if l is None or r is None else l + r
+        f = e.func
+        name = f.attr if isinstance(f, ast.Attribute) else (f.id if isinstance(f, ast.Name) else '')
+        if name in ('sqrt',) and e.args:
+            d = power_degree(e.args[0], deg_of, defs, depth + 1)
+            return None if d is None else d / 2
+        keep = {'transpose', 'conj', 'conjugate', 'copy', 'reshape', 'ravel', 'flatten', 'squeeze', 'astype', 'asarray', 'array', 'real', 'abs',
+                'norm', 'get_principal_component_matrix', 'cast', 'float'}
+        if name in keep:
+            if isinstance(f, ast.Attribute) and not (isinstance(f.value, ast.Name) and f.value.id in ('np', 'numpy', 'math')) \
+                    and not norm(f.value).endswith('linalg'):
+                return power_degree(f.value, deg_of, defs, depth + 1)
+            if e.args:
+                return power_degree(e.args[-1] if name == 'cast' else e.args[0], deg_of, defs, depth + 1)
+        return None
+    return None
